@@ -450,6 +450,15 @@ func (r *Runner) do(o Op) (out Out) {
 	case "EvalSymlinks":
 		s, err := f.EvalSymlinks(o.P)
 		return ev(err, s)
+	case "Abs":
+		// (not part of the kernel-differential interface: used between emulated file systems)
+		if a, ok := f.(interface {
+			Abs(path string) (string, error)
+		}); ok {
+			s, err := a.Abs(o.P)
+			return ev(err, s)
+		}
+		return Out{Err: "unsupported"}
 	case "Glob":
 		m, err := f.Glob(o.P)
 		if m == nil {
